@@ -744,7 +744,7 @@ Proof.
         assert (t2 = t').
         { apply (expected_log_first C t' r k2 t2 l2). rewrite E. reflexivity. }
         subst. exact F.
-      * destruct (IH t' l1 k1 t1 k2 t2 l2) as [st1 [Hin Hf]]; [rewrite E; assumption|].
+      * destruct (IH t' l1 k1 t1 k2 t2 l2) as [st1 [Hin Hf]]; [rewrite E; reflexivity|].
         exists st1. split; [right; exact Hin | exact Hf].
     + cbn [fst] in H. destruct l1 as [|x [|y l1]]; discriminate H.
 Qed.
